@@ -356,7 +356,7 @@ func (n *zzNode) boot() error {
 		},
 		FwdEventTicker:         ticker.New(DefaultFwdEventInterval),
 		LogEventTicker:         ticker.New(DefaultLogInterval),
-		AckEventTicker:         ticker.New(DefaultAckInterval),
+		AckEventTicker:         ticker.New(n.s.cfg.ackInterval),
 		HtlcNotifier:           &mockHTLCNotifier{},
 		Clock:                  clock.NewDefaultClock(),
 		MailboxDeliveryTimeout: DefaultMailboxDeliveryTimeout,
